@@ -13,7 +13,7 @@ RULE = ("all 24 one-qubit maps x all 16 operands; all 11520 two-qubit maps (enum
 ASSUMPTIONS = ["maps are valid (canonical commutation pattern, Hermitian rows); masks ascending",
                "oracle: image = i^p * prod over letters of map rows by the one-qubit table; explicit unitary for N<=3"]
 REQUIRED_SUBS = ["img.identity", "img.generators", "img.all", "img.mult", "img.commutation", "img.hermitian", "img.square",
-                 "img.coeffs", "img.mask_vs_embed", "img.rotmap_vs_rot", "unitary", "img.pauli", "embed"]
+                 "img.coeffs", "img.mask_vs_embed", "img.rotmap_vs_rot", "unitary", "img.pauli", "embed", "embed.again"]
 
 
 def shards(tier):
@@ -238,6 +238,26 @@ def run_masks(shard, rec, B):
             if ok and ok2:
                 cg, cp = B.gsps(C)
                 rec.check("img.mask_vs_embed", np.array_equal(cg, ag) and np.array_equal(cp, ap), case, True)
+            # the register map stays live: embedding again on the same wires replaces the block (signs included), embedding on
+            # other wires leaves the earlier block alone
+            if ok:
+                s2g, s2p = (maps1[int(rng.integers(24))] if n == 1 else maps2[int(rng.integers(11520))] if n == 2 else O.random_map(rng, n))
+                ok3, _ = rec.attempt("embed.again", case, lambda: big.embed(B.Map(s2g.copy(), s2p.copy()), _lib_mask(B, qubits, N)))
+                if ok3:
+                    xg, xp = O.map_embed(s2g, s2p, qubits, N)
+                    bg, bp = B.gsps(big)
+                    rec.check("embed.again", np.array_equal(bg, xg) and np.array_equal(bp, xp % 4), [case, [O.show(a, b) for a, b in zip(s2g, s2p)]], True,
+                              expected=[O.show(g, p) for g, p in zip(xg, xp)], observed=[O.show(g, p) for g, p in zip(bg, bp)])
+                    rest = [q for q in range(N) if q not in qubits]
+                    if rest and ok3:
+                        q3 = [rest[int(rng.integers(len(rest)))]]
+                        s3g, s3p = maps1[int(rng.integers(24))]
+                        ok4, _ = rec.attempt("embed.again", case, lambda: big.embed(B.Map(s3g.copy(), s3p.copy()), _lib_mask(B, q3, N)))
+                        if ok4:
+                            yg, yp = O.map_embed(s3g, s3p, q3, N)
+                            zg, zp = O.map_compose(xg, xp, yg, yp)     # disjoint wires: the two embeddings commute
+                            bg, bp = B.gsps(big)
+                            rec.check("embed.again", np.array_equal(bg, zg) and np.array_equal(bp, zp % 4), [case, "other wires", q3], True)
         # masked application on a state and a single Pauli
         P = B.Pauli(gs[0].copy(), int(ps[0]))
         ok, _ = rec.attempt("img.mask.pauli", case, lambda: P.transform_by(small, mask=_lib_mask(B, qubits, N)))
